@@ -818,6 +818,115 @@ Lemma new_token_spec t x :
                                       | Some id => to_i64 id | None => sid_unknown end)).
 Proof. unfold new_token. destruct (lst_find_by_name t x); reflexivity. Qed.
 
+(* ---- symbolIdentifier / newSymbolToken ------------------------------------------------------------- *)
+(* the text of a symbol identifier: '$' followed by one or more decimal digits *)
+Definition sid_form (x : text) (ds : list N) : Prop :=
+  x = 36 :: ds /\ ds <> [] /\ Forall (fun c => 48 <= c <= 57) ds.
+
+Lemma forallb_sid_digit ds : forallb sid_digit ds = true <-> Forall (fun c => 48 <= c <= 57) ds.
+Proof.
+  rewrite forallb_forall, Forall_forall. unfold sid_digit.
+  split; intros H c Hc; specialize (H c Hc); lia.
+Qed.
+Lemma digits_val_spec ds : forall acc, forallb sid_digit ds = true ->
+  digits_val ds acc = Some (fold_left (fun a c => a * 10 + (c - 48)) ds acc).
+Proof.
+  induction ds as [|c r IH]; intros acc H; [reflexivity|].
+  cbn [forallb] in H. apply andb_true_iff in H. destruct H as [Hc Hr].
+  cbn [digits_val fold_left]. rewrite Hc. apply IH, Hr.
+Qed.
+Lemma parse_int64_digits_spec ds : ds <> [] -> forallb sid_digit ds = true ->
+  parse_int64_digits ds = if sid_digits_value ds <? two63 then Some (Z.of_N (sid_digits_value ds)) else None.
+Proof.
+  intros Hn Hd. unfold parse_int64_digits. destruct ds as [|c r]; [contradiction|].
+  rewrite (digits_val_spec (c :: r) 0 Hd). reflexivity.
+Qed.
+
+Lemma symbol_identifier_in_range x ds : sid_form x ds -> sid_digits_value ds < two63 ->
+  symbol_identifier x = (Z.of_N (sid_digits_value ds), true).
+Proof.
+  intros (-> & Hn & Hd) Hr. apply forallb_sid_digit in Hd.
+  unfold symbol_identifier. destruct ds as [|c r]; [contradiction|].
+  rewrite Hd, (parse_int64_digits_spec (c :: r) Hn Hd).
+  destruct (N.ltb_spec (sid_digits_value (c :: r)) two63); [reflexivity | lia].
+Qed.
+Lemma symbol_identifier_beyond x ds : sid_form x ds -> two63 <= sid_digits_value ds ->
+  symbol_identifier x = (sid_unknown, false).
+Proof.
+  intros (-> & Hn & Hd) Hr. apply forallb_sid_digit in Hd.
+  unfold symbol_identifier. destruct ds as [|c r]; [contradiction|].
+  rewrite Hd, (parse_int64_digits_spec (c :: r) Hn Hd).
+  destruct (N.ltb_spec (sid_digits_value (c :: r)) two63); [lia | reflexivity].
+Qed.
+Lemma symbol_identifier_other x : (forall ds, ~ sid_form x ds) -> symbol_identifier x = (sid_unknown, false).
+Proof.
+  intros H. unfold symbol_identifier.
+  destruct x as [|c r]; [reflexivity|].
+  destruct (N.eq_dec c 36) as [->|Hc].
+  - destruct r as [|d r]; [reflexivity|].
+    destruct (forallb sid_digit (d :: r)) eqn:E; [|reflexivity].
+    exfalso. apply (H (d :: r)). split; [reflexivity|]. split; [discriminate|]. apply forallb_sid_digit, E.
+  - destruct c as [|p]; [reflexivity|].
+    do 6 (destruct p as [p|p|]; try reflexivity). congruence.
+Qed.
+
+(* exactly '$' digits with a value that fits an int64: no sign, no other character *)
+Lemma symbol_identifier_spec x n :
+  symbol_identifier x = (n, true) <->
+  exists ds, sid_form x ds /\ n = Z.of_N (sid_digits_value ds) /\ (n <= 9223372036854775807)%Z.
+Proof.
+  split.
+  - intros H. unfold symbol_identifier in H.
+    destruct x as [|c r]; [discriminate|].
+    destruct c as [|p]; [discriminate|].
+    do 6 (destruct p as [p|p|]; try discriminate).
+    destruct r as [|d r]; [discriminate|].
+    destruct (forallb sid_digit (d :: r)) eqn:E; [|discriminate].
+    rewrite (parse_int64_digits_spec (d :: r)) in H by (assumption || discriminate).
+    destruct (N.ltb_spec (sid_digits_value (d :: r)) two63) as [L|L]; [|discriminate].
+    inversion H; subst n. exists (d :: r). split.
+    + split; [reflexivity|]. split; [discriminate|]. apply forallb_sid_digit, E.
+    + split; [reflexivity|]. unfold two63 in L. lia.
+  - intros (ds & Hf & -> & Hr). apply symbol_identifier_in_range; [exact Hf|]. unfold two63. lia.
+Qed.
+Lemma symbol_identifier_not_ok x n : symbol_identifier x = (n, false) -> n = sid_unknown.
+Proof.
+  unfold symbol_identifier. intros H.
+  repeat match type of H with
+         | (match ?e with _ => _ end) = _ => destruct e; try (inversion H; reflexivity)
+         | (if ?e then _ else _) = _ => destruct e; try (inversion H; reflexivity)
+         end.
+Qed.
+
+(* newSymbolToken: '$' digits is a symbol ID — looked up when it fits an int64, an
+   error when it does not; anything else is text *)
+Lemma new_symbol_token_auto_sid t x ds : sid_form x ds -> sid_digits_value ds < two63 ->
+  new_symbol_token_auto t x = new_token_by_sid t (Z.of_N (sid_digits_value ds)).
+Proof.
+  intros Hf Hr. unfold new_symbol_token_auto. rewrite (symbol_identifier_in_range x ds Hf Hr). reflexivity.
+Qed.
+Lemma new_symbol_token_auto_out_of_range t x ds : sid_form x ds -> two63 <= sid_digits_value ds ->
+  new_symbol_token_auto t x = Err.
+Proof.
+  intros Hf Hr. unfold new_symbol_token_auto. rewrite (symbol_identifier_beyond x ds Hf Hr).
+  unfold symbol_id_out_of_range. rewrite (symbol_identifier_beyond x ds Hf Hr).
+  destruct Hf as (-> & Hn & Hd). destruct ds as [|c r]; [contradiction|].
+  apply forallb_sid_digit in Hd. rewrite Hd. reflexivity.
+Qed.
+Lemma new_symbol_token_auto_text t x : (forall ds, ~ sid_form x ds) ->
+  new_symbol_token_auto t x = new_token t x.
+Proof.
+  intros H. unfold new_symbol_token_auto. rewrite (symbol_identifier_other x H).
+  replace (symbol_id_out_of_range x) with false; [reflexivity|].
+  unfold symbol_id_out_of_range.
+  destruct x as [|c r]; [reflexivity|].
+  destruct c as [|p]; [reflexivity|].
+  do 6 (destruct p as [p|p|]; try reflexivity).
+  destruct r as [|d r]; [reflexivity|].
+  destruct (forallb sid_digit (d :: r)) eqn:E; [|reflexivity].
+  exfalso. apply (H (d :: r)). split; [reflexivity|]. split; [discriminate|]. apply forallb_sid_digit, E.
+Qed.
+
 (* ---- what fails without the hypotheses: concrete witnesses ------------------------------------------- *)
 Definition big63 : N := 9223372036854775807.   (* 2^63-1, the largest max_id an Ion int64 can declare *)
 
